@@ -4,6 +4,7 @@ mod backlog;
 mod fixedlat;
 mod life;
 mod mixed;
+mod portwrap;
 mod rules;
 mod sock;
 mod tcpx;
@@ -506,6 +507,15 @@ fn main() {
                 rep.violations.extend(st.violations);
                 rep.add_part(st.part);
             }
+            {
+                // overlapping lifetimes on a tiny ephemeral range (ports and 4-tuples reused)
+                let mut d = vx_core::DfsConfig::new("port-reuse-overlapping-lifetimes", 0);
+                d.wall = wall;
+                let thorough = tier == Tier::Thorough;
+                let st = vx_core::explore_dfs(&d, move |ch| portwrap::scenario(ch, thorough));
+                rep.violations.extend(st.violations);
+                rep.add_part(st.part);
+            }
             all_feats.sort();
             all_feats.dedup();
             let need = ["SynSent", "SynReceived", "Established", "FinWait1", "FinWait2", "CloseWait", "LastAck", "Closing"];
@@ -607,6 +617,22 @@ fn replay(path: &str) {
         for l in ch.describe() {
             println!("  choice {l}");
         }
+        match e.violation {
+            Some(v) => {
+                for a in &v.actions {
+                    println!("  {a}");
+                }
+                println!("VIOLATION clause={} : {}", v.clause, v.detail);
+                std::process::exit(1);
+            }
+            None => println!("no violation on this execution"),
+        }
+        return;
+    }
+    if prop == "C13" && scenario.starts_with("c13-portwrap") {
+        println!("replaying {prop}: {scenario}");
+        let mut ch = vx_core::Chooser::from_choices(&choices);
+        let e = portwrap::scenario(&mut ch, scenario.contains("tier=thorough"));
         match e.violation {
             Some(v) => {
                 for a in &v.actions {
